@@ -229,6 +229,38 @@ def validate(sc, results, order, tag, module='TraceConn', deps=('ConnObs.tla',),
     return vs, n, {'states': st[1] if st else n, 'transitions': st[0] if st else n}
 
 
+def stall_variants(scs, res, per_scenario=40, rnd=None, skip_actors=('poller', 'poller1', 'poller2')):
+    """Single-stall exploration: for a scenario whose baseline run recorded the schedule points each actor passed, one variant per
+    (actor, point, occurrence) in which that actor is held back there for as long as anything else can move - the systematic version of
+    'insert one long delay at this line'."""
+    import random as _r
+    rnd = rnd or _r.Random(1)
+    out = []
+    for s in scs:
+        r = res.get(s['id'])
+        if not r or r['info'].get('stuck'):
+            continue
+        pts = []
+        seen = set()
+        for name, g in r['info'].get('gates', []):
+            if g == 'env' or name in skip_actors:
+                continue
+            key = (name, g)
+            if key not in seen:
+                seen.add(key)
+                pts.append(key)
+        rnd.shuffle(pts)
+        for name, g in pts[:per_scenario]:
+            pt, occ = g.split('#')
+            v = dict(s)
+            v['id'] = '%s~%s@%s' % (s['id'], name, g)
+            v['strategy'], v['plan'] = 'plan', list(r['info']['taken'][:0])
+            v['strategy'] = s.get('strategy', 'random')
+            v['stallname'], v['stallpt'], v['stallocc'] = name, int(pt), int(occ)
+            out.append(v)
+    return out
+
+
 def known_match(findings, v, res):
     evs = res['events']
     ev = evs[v['line']] if 0 <= v['line'] < len(evs) else {}
@@ -272,6 +304,14 @@ def main(pid, tier, replay_path=None):
                     if other != fam:
                         scs += gen_scenarios(other, n_other, seed)
             res, crashed = run_scenarios(sc, binary, scs, 'a', procs=12)
+            if not replay_path:
+                # single-stall exploration over a sample of this property's own family
+                base = [s for s in scs if s['id'].startswith(fam + '-')][:60 if tier == 'quick' else 1200]
+                extra = stall_variants(base, res, per_scenario=40 if tier == 'quick' else 80, rnd=random.Random(seed), skip_actors=())
+                res2, crashed2 = run_scenarios(sc, binary, extra, 'b', procs=12)
+                scs = scs + extra
+                res.update(res2)
+                crashed += crashed2
             order = [s['id'] for s in scs]
             vs, nlines, st = validate(sc, res, order, 'a')
             byid = {s['id']: s for s in scs}
